@@ -21,10 +21,51 @@ def gen_engine():
         yacc.LRParser.parse = orig
     shared = (seen[0] is seen[1]) or any(lx is eng.lexer for lx in seen)
     mode = 'shared' if shared else 'perCall'
+    # the same observation for every public entry point that parses a text: two consecutive requests of each kind; the
+    # lexer objects handed to LRParser.parse must be pairwise distinct (also ACROSS entry points) and never the
+    # engine-wide one.  All lexers seen stay referenced, so identity comparisons are sound.
+    from yaql import yaql_interface
+    ctx = yaql.create_context()
+    root = yaql_interface.YaqlInterface(ctx, eng)
+    early = root.on(1)
+    cp = eng.copy({'yaql.limitIterators': 10})
+    entry_points = [
+        ('engine(text)', lambda t: eng(t)),
+        ('engine(text, options=..)', lambda t: eng(t, options={'yaql.limitIterators': 5})),
+        ('engine.copy(..)(text)', lambda t: cp(t)),
+        ('YaqlInterface(ctx, engine)(text)', lambda t: root(t)),
+        ('interface.on(x)(text), derived before the first evaluation', lambda t: early(t)),
+        ('interface.on(x)(text), derived after it', lambda t: root.on(2)(t)),
+        ('another interface.on(y)(text)', lambda t: root.on(3)(t)),
+    ]
+    all_seen = list(seen)
+    modes = []
+    yacc.LRParser.parse = spy
+    try:
+        for k, (name, call) in enumerate(entry_points):
+            n0 = len(seen)
+            for text in ('%d + 1' % k, '[%d]' % k):
+                try:
+                    call(text)
+                except Exception:       # noqa
+                    pass
+            mine = seen[n0:]
+            bad = len(mine) < 2 or any(a is b for i, a in enumerate(mine) for b in all_seen + mine[:i]) or \
+                any(lx is eng.lexer for lx in mine)
+            all_seen += mine
+            modes.append((name, 'shared' if bad else 'perCall'))
+    finally:
+        yacc.LRParser.parse = orig
     body = ('import Yaql.Model.ParseSched\nnamespace Yaql.Gen.Engine\nopen Yaql.ParseSched\n'
             '/-- observed on the live engine: the lexer object passed to two consecutive parses of one engine\n'
             '    is %s -/\n'
-            'def lexerMode : Mode := .%s\nend Yaql.Gen.Engine\n') % (
-        'the engine-wide one' if shared else 'a distinct object each time (a clone), never the engine-wide one', mode)
+            'def lexerMode : Mode := .%s\n'
+            '/-- the same observation per public entry point that parses a text (two consecutive requests each; a lexer\n'
+            '    object seen before - through ANY entry point - or the engine-wide one counts as shared):\n%s -/\n'
+            'def entryModes : List Mode := [%s]\n'
+            'end Yaql.Gen.Engine\n') % (
+        'the engine-wide one' if shared else 'a distinct object each time (a clone), never the engine-wide one', mode,
+        '\n'.join('    %d. %s: %s' % (i, n, m) for i, (n, m) in enumerate(modes)),
+        ', '.join('.' + m for _, m in modes))
     pyfacts.emit('Engine', body)
-    return dict(lexerMode=mode)
+    return dict(lexerMode=mode, entryModes=dict(modes))
